@@ -94,6 +94,30 @@ func rgNames[T plugin.Plugin](ps []T) []string {
 	return out
 }
 
+// rgNamesNil is rgNames for slices that may hold nil entries (reported as "<nil>").
+func rgNamesNil[T plugin.Plugin](ps []T) []string {
+	out := []string{}
+	for _, p := range ps {
+		if any(p) == nil {
+			out = append(out, "<nil>")
+			continue
+		}
+		out = append(out, p.Name())
+	}
+	sort.Strings(out)
+	return out
+}
+
+// rgScribble overwrites a result the way a caller may (the returned slice is the caller's: sorting, deleting and
+// clearing it in place are ordinary uses) and returns it cut to half its length.
+func rgScribble[T plugin.Plugin](ps []T) {
+	var zero T
+	for i := range ps {
+		ps[i] = zero
+	}
+	_ = append(ps[:len(ps)/2], zero)
+}
+
 func rgTypes[T plugin.Plugin](ps []T) []string {
 	out := []string{}
 	for _, p := range ps {
@@ -468,6 +492,41 @@ func init() {
 			emit(map[string]any{"fact": "validate_filtered", "cap": rgCapOf(c), "ok": v1 == nil, "err": rgErr(v1),
 				"enable_ok": en == nil, "enable_err": rgErr(en), "after_enable_ok": v2 == nil, "after_enable_err": rgErr(v2),
 				"fs_after_enable": rgNames(cfg.FilesystemExtractors), "standalone_after_enable": rgNames(cfg.StandaloneExtractors)})
+		}
+		// ---- second round, last of all (it may damage shared state of a defective registry): the answers of a first
+		// call are overwritten by the caller, then the same question is asked again; the filter must keep exactly the
+		// right plug-ins on every call, not only on the first. Inputs are handed over as copies.
+		round2 := func(kind string, c *plugin.Capabilities, from, filt func() []string) {
+			a, b := []string{"<panic>"}, []string{"<panic>"}
+			Safely(func() { from(); a = from() })
+			Safely(func() { filt(); b = filt() })
+			emit(map[string]any{"fact": "filter", "kind": kind, "cap": rgCapOf(c), "round": 2, "from_caps": a, "filter_all": b})
+		}
+		for _, c := range caps {
+			round2("fs", c,
+				func() []string { r := el.FromCapabilities(c); n := rgNamesNil(r); rgScribble(r); return n },
+				func() []string {
+					r := el.FilterByCapabilities(append([]filesystem.Extractor(nil), fsAll...), c)
+					n := rgNamesNil(r)
+					rgScribble(r)
+					return n
+				})
+			round2("standalone", c,
+				func() []string { r := sl.FromCapabilities(c); n := rgNamesNil(r); rgScribble(r); return n },
+				func() []string {
+					r := sl.FilterByCapabilities(append([]standalone.Extractor(nil), saAll...), c)
+					n := rgNamesNil(r)
+					rgScribble(r)
+					return n
+				})
+			round2("detector", c,
+				func() []string { r := dl.FromCapabilities(c); n := rgNamesNil(r); rgScribble(r); return n },
+				func() []string {
+					r := dl.FilterByCapabilities(append([]detector.Detector(nil), detAll...), c)
+					n := rgNamesNil(r)
+					rgScribble(r)
+					return n
+				})
 		}
 		fmt.Fprintf(os.Stderr, "registry-dump: %d facts, %d plugins, %d capability tuples\n", nfacts, len(plugins), len(caps))
 		return nil
